@@ -17,7 +17,7 @@ and their `SiblingIndependent` companions) are proved next to the per-type `op` 
     -- PER-TYPE COROLLARIES GO HERE (not faked):
     --   theorem issue_rejected_leaves_no_trace := evaluate_eq_evaluate_pruned … op_atomic_Issue issue_sibling_independent
     --   … Patch, Thread likewise. `Identity::op` is NOT sibling independent (see
-    --   `evaluate_pruned_sibling_counterexample` below).
+    --   `evaluate_pruned_counterexample_sibling_dependent` below).
 -/
 set_option linter.unusedSimpArgs false
 set_option linter.unusedVariables false
@@ -171,27 +171,28 @@ theorem evaluate_pruned_nonatomic_counterexample :
       (Dag.empty.node 0 0) 0).state? = some [0] := by
   decide
 
-/-- History `0 ← {1, 2}`; `Identity::op`-like `apply`: the change with id `2` (value 1) hits
-`UnexpectedState`, which is an error only when there are no concurrent entries; the change with id `1`
-(value 2) is always rejected. The children of the root are evaluated in descending id order: `2` first. -/
+/-- History `0 ← 1 ← {2, 3}` mirroring the confirmed witness `corpus/C04/concurrent-unexpected-state.case`
+(root `r`, proposal `p`, then the siblings `e1` = id 2 and `x` = id 3, evaluated in this order): entry
+value 1 = `e1`, an op that hits `UnexpectedState`; value 2 = `x`, always rejected. -/
 def exFork : Dag Nat :=
-  (((Dag.empty.node 0 0).node 1 2).node 2 1).addEdges [(1, 0), (2, 0)]
+  ((((Dag.empty.node 0 0).node 1 0).node 2 1).node 3 2).addEdges [(1, 0), (2, 1), (3, 1)]
 
+/-- `Identity::op`: `UnexpectedState` is an error only `if concurrent.is_empty()`. -/
 def siblingApply (s : List K) (k : K) (e : Nat) (sibs : List (K × Nat)) : List K × Bool :=
   if e = 2 then (s, false)
   else if e = 1 ∧ sibs.isEmpty then (s, false)
   else (s ++ [k], true)
 
-/-- **Without sibling independence the statement is false, even for an atomic `apply`**: in the full
-history change `2` is accepted (change `1`, rejected only afterwards, is still concurrent to it), the
-surviving history is `{0, 2}`; evaluated on its own, `2` has no concurrent entry and is rejected.
-This is the shape of `Identity::op` (`concurrent.is_empty()`), reported as a suspected defect. -/
-theorem evaluate_pruned_sibling_counterexample :
+/-- **Without sibling independence the statement is false, even for an atomic `apply`** (KNOWN FINDING
+`identity-concurrent-sibling-pruned`, confirmed on the real `Identity::op`): in the whole history `e1` is
+accepted (`x`, rejected only afterwards, is still concurrent to it) and the surviving history is
+`{0, 1, 2}`; evaluated on its own, `e1` has no concurrent entry and is rejected. -/
+theorem evaluate_pruned_counterexample_sibling_dependent :
     Atomic siblingApply ∧
-    let r := evaluate (fun _ => true) id (fun _ => some [0]) siblingApply 100 exFork 0
-    r.keys? = some [0, 2] ∧ r.state? = some [0, 2] ∧
-    (evaluate (fun _ => true) id (fun _ => some [0]) siblingApply 100
-      (((Dag.empty.node 0 0).node 2 1).addEdges [(2, 0)]) 0).state? = some [0] := by
+    let r := evaluate (fun _ => true) (fun _ => 0) (fun _ => some [0]) siblingApply 100 exFork 0
+    r.keys? = some [0, 1, 2] ∧ r.state? = some [0, 1, 2] ∧
+    (evaluate (fun _ => true) (fun _ => 0) (fun _ => some [0]) siblingApply 100
+      ((((Dag.empty.node 0 0).node 1 0).node 2 1).addEdges [(1, 0), (2, 1)]) 0).state? = some [0, 1] := by
   refine ⟨?_, by decide⟩
   intro s k e sibs
   unfold siblingApply
